@@ -86,6 +86,8 @@ RateClauses(e) ==
           Cl("C13.unit", knq /\ ok, e.out.ok.u = ru),
           Cl("C13.value", knq /\ ok /\ inr,
                  IsFin(e.out.ok.a) /\ RateMulWithin(num, den, so, e.q.a, sq, e.out.ok.a)),
+          Cl("C13.value_published", knq /\ ok /\ inr /\ OKind(OT) = "ref" /\ (Dev(OT, e.q.u) \/ Dev(OT, ou)),
+                 IsFin(e.out.ok.a) /\ RateMulWithin(num, den, PScale(OT, ou), e.q.a, PScale(OT, e.q.u), e.out.ok.a)),
           Cl("C13.via_reciprocal", knq /\ inr /\ Has(e, "via_recip") /\ Ok(e.via_recip),
                  e.via_recip.ok.u = ru /\ IsFin(e.via_recip.ok.a)
                  /\ RateMulWithin(num, den, so, e.q.a, sq, e.via_recip.ok.a)),
